@@ -547,7 +547,9 @@ static std::string op_alloc(seq_state &st, S &stor, std::size_t sz, int kind /* 
         os << "alloc#" << f.id << " sz=" << sz;
     } else {
         f.coro = true;
-        os << (sz == std::size_t(-2) ? "cdrop#" : "coro#") << f.id;
+        const bool drop = sz == std::size_t(-2);
+        const int cstart = (sz <= std::size_t(-3) && sz >= std::size_t(-5)) ? static_cast<int>(std::size_t(-3) - sz) : -1;
+        os << (drop ? "cdrop#" : cstart >= 0 ? "cstart#" : "coro#") << f.id;
         auto mk = [&]() -> async<void> {
             switch (kind) {
                 case 0: return coro_fn<S, KIND_N[0]>(stor, &f);
@@ -573,14 +575,32 @@ static std::string op_alloc(seq_state &st, S &stor, std::size_t sz, int kind /* 
         bool ov = false;
         f.live = true;
         ov = overlaps(st, f);
-        if (sz == std::size_t(-2)) {
-            // created and destroyed without ever being started
+        if (drop || cstart >= 0) {
             ex_snapshot s1;
-            { async<void> d(std::move(c)); }
+            bool started = false;
+            if (drop) {
+                // created and destroyed without ever being started
+                async<void> d(std::move(c));
+            } else {
+                // async::start(promise) with a promise that cannot be claimed: "retval false ... the coroutine remains
+                // suspended" — it still belongs to the async object, whose destructor must release the frame
+                future<void> fut;
+                promise<void> p0;                               // 0: default constructed
+                promise<void> p = cstart == 0 ? std::move(p0) : fut.get_promise();
+                promise<void> keep;
+                if (cstart == 1) { promise<void> q(std::move(p)); keep = std::move(q); }   // 1: moved-from
+                if (cstart == 2) p();                          // 2: already resolved
+                {
+                    async<void> d(std::move(c));
+                    started = d.start(p);
+                }
+                if (cstart == 1) keep();
+            }
             f.live = false;
             os << " at=" << w << exs << (ov ? " OVERLAP" : "");
             os << " freed=" << ((last_dealloc.seen && last_dealloc.ptr == f.ptr && last_dealloc.sz == f.sz) ? "ok" : (last_dealloc.seen ? "mismatch" : "no"));
             os << extra_after_free(st, f, s1);
+            if (cstart >= 0) os << " started=" << started;
             st.frames.push_back(std::move(fr));
             return os.str();
         }
@@ -695,7 +715,7 @@ static void seq_loop(seq_state &st, Pol &pol, std::function<std::string(const st
         bool occupied = false;
         if (st.single)
             for (auto &f : st.frames) occupied = occupied || f->live;
-        if (occupied && (w[0] == "alloc" || w[0] == "coro" || w[0] == "cdrop")) {
+        if (occupied && (w[0] == "alloc" || w[0] == "coro" || w[0] == "cdrop" || w[0] == "cstart")) {
             head = "skip";
         } else if (w[0] == "alloc" && w.size() >= 3) {
             std::size_t k = std::strtoul(w[1].c_str(), nullptr, 10), sz = std::strtoul(w[2].c_str(), nullptr, 10);
@@ -704,6 +724,11 @@ static void seq_loop(seq_state &st, Pol &pol, std::function<std::string(const st
             std::size_t k = std::strtoul(w[1].c_str(), nullptr, 10);
             int kind = std::atoi(w[2].c_str()) & 7;
             head = pol.has(k) ? op_alloc(st, pol.sel(k), w[0] == "cdrop" ? std::size_t(-2) : 0, kind) : "skip";
+        } else if (w[0] == "cstart" && w.size() >= 4) {
+            std::size_t k = std::strtoul(w[1].c_str(), nullptr, 10);
+            int kind = std::atoi(w[2].c_str()) & 7;
+            std::size_t mode = std::strtoul(w[3].c_str(), nullptr, 10) % 3;
+            head = pol.has(k) ? op_alloc(st, pol.sel(k), std::size_t(-3) - mode, kind) : "skip";
         } else if ((w[0] == "free" || w[0] == "fin" || w[0] == "kill") && w.size() >= 2) {
             head = op_free<S>(st, std::strtoul(w[1].c_str(), nullptr, 10), w[0] == "kill" ? "kill" : "fin");
         } else {
